@@ -953,6 +953,12 @@ namespace link_layer {
             return current_channel_index_ == first_channel_index();
         }
 
+        void select_first_channel()
+        {
+            if ( map_ )
+                current_channel_index_ = first_channel_index();
+        }
+
     private:
         unsigned first_channel_index() const
         {
@@ -1000,6 +1006,11 @@ namespace link_layer {
         bool first_channel_selected() const
         {
             return current_channel_index_ == this->first_advertising_channel;
+        }
+
+        void select_first_channel()
+        {
+            current_channel_index_ = this->first_advertising_channel;
         }
 
     private:
@@ -1138,6 +1149,9 @@ namespace link_layer {
 
                 if ( !advertising_data.empty() && this->begin_of_advertising_events() )
                 {
+                    // every advertising event starts on the first enabled channel
+                    this->select_first_channel();
+
                     this->base_link_layer().set_access_address_and_crc_init(
                         this->advertising_radio_access_address,
                         this->advertising_crc_init );
@@ -1320,6 +1334,9 @@ namespace link_layer {
 
                 if ( !advertising_data.empty() && this->begin_of_advertising_events() )
                 {
+                    // every advertising event starts on the first enabled channel
+                    this->select_first_channel();
+
                     this->base_link_layer().set_access_address_and_crc_init(
                         this->advertising_radio_access_address,
                         this->advertising_crc_init );
